@@ -376,3 +376,32 @@ Theorem C12_model_is_source_cli_reveal_plate_reveal : forall (load : Cli.path ->
     Ok [(Cli.rp_output a, s')].
 Proof. exact C12SourceCliReveal.src_cli_reveal_plate_reveal. Qed.
 Print Assumptions C12_model_is_source_cli_reveal_plate_reveal.
+
+(* ---- the guards of reveal, read PER PLATE ("revealing refuses plates whose stored values are all zero or contain NaN") ----
+   plate_values s pid = the stored values of the rows whose plate id is pid (end of Model/Reveal.v).  The code evaluates
+   both guards on the union of the selected rows; per plate the NaN half holds as stated, the zero half only when EVERY
+   named plate is all zero, and the clause as the property words it is FALSE of the source: the all-zero plate is
+   revealed when it is named together with a plate holding a non-zero value (KNOWN_FINDINGS: reveal-zero-guard-is-joint). *)
+From Batchie Require Proofs.C12PerPlate.
+Theorem C12_reveal_refuses_nan_per_plate : forall v s ids pid,
+  In pid ids -> existsb obs_is_nan (plate_values s pid) = true -> reveal_plates v s ids = Err 9.
+Proof. exact C12PerPlate.reveal_refuses_nan_per_plate. Qed.
+Print Assumptions C12_reveal_refuses_nan_per_plate.
+
+Theorem C12_reveal_refuses_zero_every_plate_partial : forall v s ids,
+  (forall pid, In pid ids -> forallb obs_is_zero (plate_values s pid) = true) -> reveal_plates v s ids = Err 8.
+Proof. exact C12PerPlate.reveal_refuses_zero_every_plate. Qed.
+Print Assumptions C12_reveal_refuses_zero_every_plate_partial.
+
+(* refutation of "forall s ids pid, In pid ids -> plate pid all zero -> reveal refuses": a constructed screen, an
+   unobserved non-empty all-zero plate pid named in ids, which alone is refused (tag 8), and the TRANSLATED
+   reveal_plates (= the model's with the mappings carried) returns a screen in which that plate is observed *)
+Theorem C12_reveal_refuses_zero_per_plate_refuted :
+  exists s ids pid s',
+    constructed s /\ In pid ids /\ In pid (s_pids s) /\ plate_observed s pid = false /\
+    plate_values s pid <> [] /\ forallb obs_is_zero (plate_values s pid) = true /\
+    reveal_plates (carry_mappings true) s [pid] = Err 8 /\
+    src_reveal_plates s ids = Ok s' /\ reveal_plates (carry_mappings true) s ids = Ok s' /\
+    plate_observed s' pid = true.
+Proof. exact C12PerPlate.reveal_zero_guard_is_joint. Qed.
+Print Assumptions C12_reveal_refuses_zero_per_plate_refuted.
